@@ -45,7 +45,7 @@ def one(meta_path):
 metas = [p for p in sorted(glob.glob(os.path.join(HERE, 'seeded', '*', 'meta.json')))
          if not prefixes or os.path.basename(os.path.dirname(p)).startswith(prefixes)]
 bad = 0
-with ThreadPoolExecutor(4) as ex:
+with ThreadPoolExecutor(int(os.environ.get('SEED_JOBS', '4'))) as ex:
     for sid, status, extra in ex.map(one, metas):
         if status != 'ok' or '-v' in sys.argv:
             print('%-10s %s%s' % (sid, status, ('   (also: %s)' % ' '.join(extra)) if extra and status != 'ok' else ''))
